@@ -253,9 +253,9 @@ Theorem clip_op_correct x lo hi : lowered_clip_op x lo hi = jax_clip x lo hi.
 Proof. exact (clamp_correct x lo hi). Qed.
 
 Definition jax_relu (x : Z) := if x <? 0 then 0 else x.
-Definition lowered_relu (x : Z) := o_relu x.      (* jax.nn.relu's plugin emits the Relu operator *)
-Theorem relu_correct x : lowered_relu x = jax_relu x.
-Proof. unfold lowered_relu, o_relu, jax_relu. destruct (x <? 0) eqn:E; lia. Qed.
+Definition prerepair_relu (x : Z) := o_relu x.      (* the Relu operator (before cc0a643 also on unsigned types, where it does not exist) *)
+Theorem prerepair_relu_correct x : prerepair_relu x = jax_relu x.
+Proof. unfold prerepair_relu, o_relu, jax_relu. destruct (x <? 0) eqn:E; lia. Qed.
 (* jax.nn.relu6 of an integer is a float: minimum(maximum(x, 0), 6.); exact on integers *)
 Definition jax_relu6 (x : Z) := if x <? 0 then 0 else if 6 <? x then 6 else x.
 Definition lowered_relu6 (x : Z) := o_min (o_cast_float (o_max x 0)) 6.
@@ -1034,17 +1034,25 @@ Definition lowered_integer_pow (sb : ity) (x : Z) (n : nat) := repaired_integer_
 Theorem integer_pow_correct sb x n : 0 < snd sb -> in_int sb x -> lowered_integer_pow sb x n = jax_integer_pow sb x n.
 Proof. exact (repaired_integer_pow_correct sb x n). Qed.
 
-(* ---------------------------------------------------------------- pending repairs (.scratch/c01k/fix_relu_unsigned.diff, fix_jnp_power.diff) *)
+(* ---------------------------------------------------------------- repairs committed as cc0a643 (relu) and ccb100d (jnp.power) *)
 (* jax.nn.relu on unsigned types: Identity instead of Relu (which has no unsigned variant) *)
 Definition repaired_relu (sb : ity) (x : Z) := if is_signed sb then o_relu x else o_identity x.
 Theorem repaired_relu_correct sb x : in_int sb x -> repaired_relu sb x = jax_relu x.
 Proof.
-  intro Hx. unfold repaired_relu. destruct (is_signed sb) eqn:Hs; [apply relu_correct|].
+  intro Hx. unfold repaired_relu. destruct (is_signed sb) eqn:Hs; [apply prerepair_relu_correct|].
   unfold o_identity, jax_relu. destruct sb as [sg b]; unfold is_signed in Hs; simpl in Hs; subst sg.
   unfold in_int, int_lo in Hx; simpl in Hx. destruct (x <? 0) eqn:E; lia.
 Qed.
 (* jnp.power / jnp.pow with a constant integer exponent on integers: the repeated-Mul graph of lowered_integer_pow
    (integer_pow_correct); the Pow graph (prerepair_integer_pow) is valid ONNX for int32 / int64 bases only *)
+
+(* the lowering of /repo since cc0a643: Relu on signed types, Identity on unsigned ones *)
+Definition lowered_relu (sb : ity) (x : Z) := repaired_relu sb x.
+Theorem relu_correct sb x : in_int sb x -> lowered_relu sb x = jax_relu x.
+Proof. exact (repaired_relu_correct sb x). Qed.
+Definition relu_dom (sb : ity) : Prop := is_signed sb = true.
+Theorem relu_unsigned_outside_onnx_domain sb : is_signed sb = false -> ~ relu_dom sb.
+Proof. unfold relu_dom; intros H1 H2; congruence. Qed.
 
 (* ================================================================ non-vacuity *)
 Example nonvacuous_div : in_int I32 (-7) /\ in_int I32 2 /\ div_dom I32 (-7) 2 /\ lowered_div I32 (-7) 2 = -3.
